@@ -114,8 +114,11 @@ func c08Script(c *Ctx, r *Rng, o simOpts, small bool) {
 	var s *respScript
 	if small {
 		s = &respScript{}
-		id := r.U64() % 100
-		s.pkts = append(s.pkts, srvPkt{kind: "p", id: id, bytes: enc.progress(id, 1, 2, 3, 4, 5), spec: fmt.Sprintf("p:%d", id)})
+		// one to four Progress packets back to back (a segment may hold several packets, or a part of one)
+		for k := 1 + r.Intn(4); k > 0; k-- {
+			id := r.U64() % 100
+			s.pkts = append(s.pkts, srvPkt{kind: "p", id: id, bytes: enc.progress(id, 1, 2, 3, 4, 5), spec: fmt.Sprintf("p:%d", id)})
+		}
 		if r.Bool() {
 			s.pkts = append(s.pkts, srvPkt{kind: "x", chain: []srvExc{{60, "E", "E: m", "s"}}, bytes: enc.exception([]srvExc{{60, "E", "E: m", "s"}}), spec: "x:60"})
 		} else {
@@ -216,7 +219,7 @@ func runC08(c *Ctx) {
 		o := simOpts{compression: c03Compressions[r.Intn(len(c03Compressions))], serverRev: c03Revs[r.Intn(len(c03Revs))]}
 		c08Script(c, r.Fork(), o, false)
 	}
-	for i := 0; i < 4; i++ {
+	for i := 0; i < 6; i++ {
 		c08Script(c, r.Fork(), simOpts{serverRev: 54460}, true)
 	}
 	// directed: variable-length values (strings, arrays of strings, LowCardinality dictionaries) in plain and compressed
